@@ -212,24 +212,24 @@ theorem assign_code_eq (M : Nat) (L : List (Nat × Nat)) : ∀ (code prev i : Na
 /-! ### bit strings -/
 
 /-- the `l` low bits of `code`, most significant first -/
-def bitsOfCode : Nat → Nat → List Bool
+def canonBits : Nat → Nat → List Bool
   | 0, _ => []
-  | l + 1, c => bitsOfCode l (c / 2) ++ [c % 2 == 1]
+  | l + 1, c => canonBits l (c / 2) ++ [c % 2 == 1]
 
-example : bitsOfCode 3 5 = [true, false, true] := by decide
-example : bitsOfCode 3 1 = [false, false, true] := by decide
-example : bitsOfCode 2 2 = [true, false] := by decide
+example : canonBits 3 5 = [true, false, true] := by decide
+example : canonBits 3 1 = [false, false, true] := by decide
+example : canonBits 2 2 = [true, false] := by decide
 
-@[simp] theorem length_bitsOfCode (l c : Nat) : (bitsOfCode l c).length = l := by
+@[simp] theorem length_canonBits (l c : Nat) : (canonBits l c).length = l := by
   induction l generalizing c with
   | zero => rfl
-  | succ l ih => simp [bitsOfCode, ih]
+  | succ l ih => simp [canonBits, ih]
 
 /-- the first `l` of the `m` bits of `d` are the `l` bits of `d / 2^(m-l)` -/
-theorem take_bitsOfCode (m : Nat) : ∀ (l d : Nat), l ≤ m → (bitsOfCode m d).take l = bitsOfCode l (d / 2 ^ (m - l)) := by
+theorem take_canonBits (m : Nat) : ∀ (l d : Nat), l ≤ m → (canonBits m d).take l = canonBits l (d / 2 ^ (m - l)) := by
   induction m with
   | zero => intro l d h; have : l = 0 := by omega
-            subst this; simp [bitsOfCode]
+            subst this; simp [canonBits]
   | succ m ih =>
     intro l d h
     rcases Nat.lt_or_ge m l with hl | hl
@@ -237,19 +237,19 @@ theorem take_bitsOfCode (m : Nat) : ∀ (l d : Nat), l ≤ m → (bitsOfCode m d
       subst this
       rw [List.take_of_length_le (by simp)]
       simp
-    · have hlen : l ≤ (bitsOfCode m (d / 2)).length := by simp [hl]
-      show List.take l (bitsOfCode m (d / 2) ++ [d % 2 == 1]) = _
+    · have hlen : l ≤ (canonBits m (d / 2)).length := by simp [hl]
+      show List.take l (canonBits m (d / 2) ++ [d % 2 == 1]) = _
       rw [List.take_append_of_le_length hlen, ih l (d / 2) hl, Nat.div_div_eq_div_mul]
       congr 2
       have : m + 1 - l = (m - l) + 1 := by omega
       rw [this, pow_succ]; ring
 
-theorem bitsOfCode_inj (l : Nat) : ∀ c c' : Nat, c < 2 ^ l → c' < 2 ^ l → bitsOfCode l c = bitsOfCode l c' → c = c' := by
+theorem canonBits_inj (l : Nat) : ∀ c c' : Nat, c < 2 ^ l → c' < 2 ^ l → canonBits l c = canonBits l c' → c = c' := by
   induction l with
   | zero => intro c c' h h' _; simp at h h'; omega
   | succ l ih =>
     intro c c' h h' he
-    have he' : bitsOfCode l (c / 2) ++ [c % 2 == 1] = bitsOfCode l (c' / 2) ++ [c' % 2 == 1] := he
+    have he' : canonBits l (c / 2) ++ [c % 2 == 1] = canonBits l (c' / 2) ++ [c' % 2 == 1] := he
     obtain ⟨h1, h2⟩ := List.append_inj he' (by simp)
     rw [pow_succ] at h h'
     have := ih (c / 2) (c' / 2) (by omega) (by omega) h1
@@ -261,33 +261,33 @@ theorem bitsOfCode_inj (l : Nat) : ∀ c c' : Nat, c < 2 ^ l → c' < 2 ^ l → 
 
 /-- separated entries with in-range codes have incomparable bit strings -/
 theorem sep_not_prefix {a b : Nat × Nat × Nat} (hab : Sep a b) (ha : a.2.2 < 2 ^ a.2.1) (hb : b.2.2 < 2 ^ b.2.1) :
-    ¬ bitsOfCode a.2.1 a.2.2 <+: bitsOfCode b.2.1 b.2.2 ∧ ¬ bitsOfCode b.2.1 b.2.2 <+: bitsOfCode a.2.1 a.2.2 := by
+    ¬ canonBits a.2.1 a.2.2 <+: canonBits b.2.1 b.2.2 ∧ ¬ canonBits b.2.1 b.2.2 <+: canonBits a.2.1 a.2.2 := by
   obtain ⟨sa, la, ca⟩ := a
   obtain ⟨sb, lb, cb⟩ := b
   obtain ⟨hl, hc⟩ := hab
   simp only at hl hc ha hb ⊢
-  have key : ¬ bitsOfCode la ca <+: bitsOfCode lb cb := by
+  have key : ¬ canonBits la ca <+: canonBits lb cb := by
     intro hp
     have h1 := List.prefix_iff_eq_take.mp hp
-    rw [length_bitsOfCode, take_bitsOfCode lb la cb hl] at h1
+    rw [length_canonBits, take_canonBits lb la cb hl] at h1
     have hdiv : cb / 2 ^ (lb - la) < 2 ^ la := by
       rw [Nat.div_lt_iff_lt_mul (Nat.two_pow_pos _), ← pow_add]
       have : la + (lb - la) = lb := by omega
       rw [this]; exact hb
-    have := bitsOfCode_inj la _ _ ha hdiv h1
+    have := canonBits_inj la _ _ ha hdiv h1
     have h2 : ca + 1 ≤ cb / 2 ^ (lb - la) := (Nat.le_div_iff_mul_le (Nat.two_pow_pos _)).mpr hc
     omega
   refine ⟨key, ?_⟩
   intro hp
   have hlen := hp.length_le
-  simp only [length_bitsOfCode] at hlen
+  simp only [length_canonBits] at hlen
   have : la = lb := by omega
   subst this
   have := List.IsPrefix.eq_of_length hp (by simp)
   exact key (this ▸ List.prefix_refl _)
 
 /-- the bit strings of the entries -/
-abbrev codeBits (enc : List (Nat × Nat × Nat)) : List (List Bool) := enc.map fun e => bitsOfCode e.2.1 e.2.2
+abbrev codeBits (enc : List (Nat × Nat × Nat)) : List (List Bool) := enc.map fun e => canonBits e.2.1 e.2.2
 
 /-- **prefix-freeness of the canonical code**: for levels sorted ascending, bounded by `M`, with Kraft sum at most `2^M` -/
 theorem assign_prefixFree (M : Nat) (L : List (Nat × Nat)) (h : Pre M L 0 0) :
